@@ -99,6 +99,7 @@ var acceptC09 = []accept{
 
 func runC09(p *eng.Prog, r *eng.Report, tier string) {
 	c := &cx{p, r, tier}
+	c.r.Note("C09.38: %d nil-intolerant method calls on optional forms", r19OptionalFormsTested(c, "C09.38"))
 	r18WalkSkipsOnlyItself(c, "C09.36")
 	r18ClosersReleaseOnEveryPath(c, "C09.37")
 	c.r.Floor("C09.35", "returns with a deferred release pending", deferredReleaseFindsTheLockHeld(c, "C09.35", ""), 20)
